@@ -49,6 +49,8 @@ func init() {
 			"Material sizes (a separate sub-workload): certificate, key and CA FILES that hold the usable material of the lattice's files but whose size is one byte below, exactly at and half a PEM block above 4 KiB, 32 KiB, 64 KiB and 1 MiB (the boundary then falls inside the block that stands last), reached with explanatory text lines or blank lines outside the PEM blocks " +
 			"or (CA files: the largest bundle not above the boundary / the smallest bundle that reaches half a block above it) with further valid root certificates minted once per worker, the needed block (the root that certifies S1, the client certificate, the client key) standing first or last in the file = " + fmt.Sprint(len(sizedPoints())) + " points, " +
 			"inspected through all three entry points (the pool must hold EVERY certificate of the CA file, compared with a pool built from the certificates the monitor minted), plus handshakes by either route against S1 and, for the CA-file points, against S0 (must be refused). " +
+			"CA files with FOREIGN PEM blocks (part of the material-sizes sub-workload and of its point count): blocks that are no CERTIFICATE (" + strings.Join(foreignKinds, ", ") + ": an X509 CRL, EC PARAMETERS, a PKCS#8 and a SEC1 private key, a CERTIFICATE REQUEST, an OpenSSL TRUSTED CERTIFICATE wrapping a root the file also holds as CERTIFICATE, a block of an unknown type, an encrypted legacy key block with headers) " +
+			"as a fourth padding kind of the sized CA files (one foreign block, the kinds in turn, in front of every filler root) and in small files with the block orders " + strings.Join(mixLayouts, ", ") + " (R = the root that certifies S1, f = another root, X = the foreign block, or one of every kind): the pool must hold every CERTIFICATE block of the file. " +
 			"Every exported field of the returned tls.Config that the table does not name (Time, KeyLogWriter, CipherSuites, Renegotiation, ...) is recorded as class unjudged-config-field-set:<field> when it is not zero. " +
 			"non-trivial = a lattice point with at least one option set (distinct by lattice index), and each executed handshake (distinct by lattice index x listener x verdict)",
 		Assumptions: []string{
@@ -69,6 +71,7 @@ func init() {
 			"LoadedKey holding a usable key of the right pair as a non-pointer struct value or as an opaque crypto.Signer: the doc comments do not promise that form is accepted; an error is accepted, and so is a configuration that carries exactly the supplied identity; a configuration without it is a violation",
 			"exported tls.Config fields that the statement does not name are classed, not judged",
 			"text outside the PEM blocks of a file (explanatory lines, blank lines; RFC 7468 section 2, encoding/pem) is no part of the material: a file that holds the usable certificate / key / roots and such text is usable material of whatever size, and every certificate of a CA file is a supplied root wherever it stands in the file; the row owed is the row of the plain file",
+			"a PEM block of a CA file that is no CERTIFICATE (CRL, key, parameters, request, a block of an unknown type or with headers) supplies no root and makes the file no less usable: the certificates of the file's CERTIFICATE blocks are the supplied roots, whether they stand before or after such a block. The TRUSTED CERTIFICATE block (OpenSSL's certificate-plus-trust-settings form) wraps a certificate that the same file holds as a CERTIFICATE block too, so the pool owed is the same whether a reader understands that form or skips it",
 		},
 		MinNontrivial: latticeSize() - 1, // exhaustive: every non-trivial point of the lattice must have been inspected
 		QuickShards:   8,
